@@ -15,6 +15,14 @@ try:
     if r.returncode != 0:
         print('setup: expansion pre-build failed', file=sys.stderr)
         sys.exit(1)
+    # Kani dependency artefacts (the crate itself is rebuilt by every check that has a Kani leg)
+    kenv = dict(os.environ, CARGO_NET_OFFLINE='true', CARGO_TARGET_DIR=os.path.join(VERIF, '.cache', 'kani-target'))
+    kenv.pop('RUSTUP_TOOLCHAIN', None)
+    open(tmp + '/repo/src/lib.rs', 'a').write('\n#[cfg(kani)]\nmod verif_kani_setup { #[kani::proof] fn warm() { assert!(1 + 1 == 2); } }\n')
+    r = subprocess.run(['timeout', '1200', 'cargo', 'kani', '--harness', 'warm'], cwd=tmp + '/repo', env=kenv,
+                       stdout=subprocess.DEVNULL, stderr=subprocess.DEVNULL)
+    if r.returncode != 0:
+        print('setup: kani warm-up failed (Kani legs will report UNDECIDED)', file=sys.stderr)
     r = subprocess.run(['verus', '--version'], stdout=subprocess.DEVNULL)
     sys.exit(r.returncode)
 finally:
